@@ -161,3 +161,10 @@ package parser
 //@   ensures C15.unitMaximal: ch == 49 && result0 == UNIT ==> rest == "" || !labelCharCode(code(str_at(rest, 0)))
 //@ contract (*scanner).scanLabel
 //@   ensures C15.labelNotUnit: result0 != UNIT
+
+// C15, the grammar side. The printers bracket a binary type or a shift exactly when it is the left operand of a binary
+// type (lp in types/zz_contracts_verif.go): that is the canonical form of a grammar in which *, -*, /\ and \/ share one
+// right-associative level. The driver is generated; both facts are pinned on every run.
+//@ grammar C15 parser/parser.y parser/parser.y.go goyacc -p grits -o parser/parser.y.go parser/parser.y
+//@ precedence C15 %left SEQUENCE RANGLE
+//@ precedence C15 %right TIMES LOLLI UP_ARROW DOWN_ARROW
